@@ -282,6 +282,11 @@ PROPS["C16"] = {
                     {"base": "docs-quick", "flip": {"RemoveUpperBound": "FALSE"}}],
     "drives": [docs_drive("C16"),
                # the GC-protection handshake of a real Engine: protected set = hashes held; no complete set => Abort
+               # a removal is all-or-nothing for a process that dies inside it: the age-based commit is forced before every
+               # table access of every successful remove_replica and the database file is copied right after the call; the
+               # image must show the store wholly before or wholly after the removal (C06's machinery aimed at C16's clause)
+               {"name": "storetx-remove", "cmd": "storetx", "args": {"n": {"quick": 40, "thorough": 1200}, "focus": 1},
+                "trace_module": "StoreTxTrace", "trace_consts": dict(ENTRY), "tv_timeout": 3000, "timeout": 7200},
                {"name": "protect", "cmd": "protect", "args": {"n": {"quick": 40, "thorough": 1500}},
                 "trace_module": "ProtectTrace", "trace_consts": {}, "tv_timeout": 1800}],
 }
@@ -385,7 +390,7 @@ PROPS["C10"] = {
 import re
 import vlib as _v
 LIVE_CONSTS = {"MaxDials": 3, "FixAbortLeak": "TRUE", "KeepResyncOnAccept": "TRUE", "SyncingChoices": "<- AnySyncing",
-               "DialReasons": "<- TwoReasons", "Yielder": 2}
+               "DialReasons": "<- TwoReasons", "Yielder": 2, "MaxLeaves": 0, "JoinWaitsForQuiet": "TRUE"}
 _LIVE = {"yielder": 2}     # which node yields in a simultaneous dial, probed from the code before schedules are exported
 LIVE_INV = ["NoTwoSessions", "SlotFreed", "NoResyncLost", "SimulExactlyOne", "NotFoundWhenNotSyncing"]
 
@@ -412,6 +417,13 @@ def livesync_schedules(wdir, tier, seed, cov):
     c2 = dict(LC, MaxDials=2)
     n1, r1 = _v.export_schedules("MCLiveSync", _v.cfg_text(consts=c2, view="view", extra="ACTION_CONSTRAINT EmitEdges"), out,
                                  workers=1, tag="C11-sched")
+    # (a') the same with a changing sync set: one dial, one leave (and re-join), a content download queued and reported beside
+    cl = dict(LC, MaxDials=1, MaxLeaves=1, SyncingChoices="<- Both")
+    n1b, r1b = _v.export_schedules("MCLiveSync", _v.cfg_text(consts=cl, view="view", extra="ACTION_CONSTRAINT EmitEdges"), out,
+                                   workers=1, tag="C11-sched")
+    n1c, r1c = _v.export_schedules("MCLiveSync", _v.cfg_text(consts=dict(LC, MaxDials=3, MaxLeaves=2), invariants=["EmitSchedules"], view="view"), out,
+                                   simulate=f"num={500 if tier == 'quick' else 6000}", seed=seed, depth=80, workers=4,
+                                   limit=1500 if tier == "quick" else 15000, tag="C11-sched")
     num = 1500 if tier == "quick" else 12000
     n2, r2 = _v.export_schedules("MCLiveSync", _v.cfg_text(consts=LC, invariants=["EmitSchedules"], view="view"), out,
                                  simulate=f"num={num}", seed=seed, depth=80, workers=4, limit=6000 if tier == "quick" else 40000,
@@ -421,7 +433,8 @@ def livesync_schedules(wdir, tier, seed, cov):
         c4 = dict(LC, MaxDials=4, DialReasons="<- AllReasons")
         n3, r3 = _v.export_schedules("MCLiveSync", _v.cfg_text(consts=c4, invariants=["EmitSchedules"], view="view"), out,
                                      simulate="num=6000", seed=seed, depth=120, workers=4, limit=20000, tag="C11-sched")
-    cov["schedules_from_tlc"] = {"one_per_transition_maxdials2": n1, "simulated_maxdials3": n2, "simulated_maxdials4": n3}
+    cov["schedules_from_tlc"] = {"one_per_transition_maxdials2": n1, "one_per_transition_leave_join_download": n1b,
+                                 "simulated_leave_join_download": n1c, "simulated_maxdials3": n2, "simulated_maxdials4": n3}
     _v.log(f"[C11] schedules exported from TLC: {n1} (one per transition, MaxDials=2) + {n2} (simulation, MaxDials=3) + {n3} (MaxDials=4)")
     return out
 
@@ -444,16 +457,24 @@ PROPS["C11"] = {
          "invariants": LIVE_INV, "view": "view"},
         {"name": "livesync-all-reasons", "module": "MCLiveSync", "workers": 14, "timeout": 3000,
          "consts": dict(LIVE_CONSTS, DialReasons="<- AllReasons"), "invariants": LIVE_INV, "view": "view", "tiers": ("thorough",)},
+        # the sync set changes under the sessions: a node leaves (its state is dropped), re-joins once nothing of it is in
+        # flight, downloads are queued and reported beside
+        {"name": "livesync-leave", "module": "MCLiveSync", "workers": 12, "timeout": 1800,
+         "consts": dict(LIVE_CONSTS, MaxDials=2, MaxLeaves=1), "invariants": LIVE_INV, "view": "view"},
+        {"name": "livesync-leave-deep", "module": "MCLiveSync", "workers": 14, "timeout": 3000,
+         "consts": dict(LIVE_CONSTS, MaxDials=3, MaxLeaves=1), "invariants": LIVE_INV, "view": "view", "tiers": ("thorough",)},
     ],
     "sensitivity": [
         {"base": "livesync", "flip": {"FixAbortLeak": "FALSE"}},
         {"base": "livesync", "flip": {"KeepResyncOnAccept": "FALSE"}},
+        # a node that re-joins while one of its sessions is still running can end up with two sessions at once
+        {"base": "livesync-leave", "flip": {"JoinWaitsForQuiet": "FALSE"}},
     ],
     "drives": [
         {"name": "livesync", "cmd": "livesync", "args": {}, "schedules_from": livesync_schedules,
          "trace_module": "LiveSyncTrace", "spec": "TSpec",
          "trace_consts": lambda: {"MaxDials": 1000, "FixAbortLeak": "TRUE", "KeepResyncOnAccept": "TRUE", "SyncingChoices": "{{}}",
-                                  "DialReasons": "{}", "Yielder": _LIVE["yielder"]},
+                                  "DialReasons": "{}", "Yielder": _LIVE["yielder"], "MaxLeaves": 1000, "JoinWaitsForQuiet": "TRUE"},
          "trace_invariants": LIVE_INV, "tv_timeout": 3000, "timeout": 7200},
         # thorough: complete nodes on the loopback network, every call of the slot transition functions (hook H10) validated
         # against the node-local rules (LiveNodeTrace, extension X05).  The verdict does not depend on timing; if the local
